@@ -159,8 +159,8 @@ Proof.
         destruct (Hq x Hx) as [H|[id ->]]; [apply F4; apply in_or_app; left; exact H | left; reflexivity]. }
     destruct a as [id|id err|id]; cbn [on_ack].
     + destruct (in_out id (pubout w)); [apply G; auto | split; [exact HF | reflexivity]].
-    + destruct (v5 && err).
-      * destruct (in_out id (pubout w)); [apply G; auto | split; [exact HF | reflexivity]].
+    + destruct (in_out id (pubout w)); [|split; [exact HF | reflexivity]]. destruct (v5 && err).
+      * apply G; auto.
       * apply G. intros x Hx. apply in_app_or in Hx. destruct Hx as [Hx|[<-|[]]]; [left; exact Hx | right; exists id; reflexivity].
     + destruct (in_out id (pubout w)); [apply G; auto | split; [exact HF | reflexivity]].
   - (* EClose *) rewrite app_nil_r. inversion Hs; subst. cbn [fresh_out filter map app]. unfold close.
